@@ -98,7 +98,10 @@ def build_history(revisions, eol=b"\n"):
                 entries[n] = ("o", sid, i)
             data = head + bodies
             entries[sid] = ("n", len(out))
-            out += _obj_bytes(sid, Stream({"Type": "ObjStm", "N": len(nums), "First": len(head)}, data))
+            sd = {"Type": "ObjStm", "N": len(nums), "First": len(head)}
+            if rev.get("objstm_fault"):          # damage injected by the robustness harness: callable (dict, payload) -> (dict, payload)
+                sd, data = rev["objstm_fault"](sd, data)
+            out += _obj_bytes(sid, Stream(sd, data))
         trailer = {"Size": size, "Root": Ref(rev.get("root", 1))}
         if prev is not None:
             trailer["Prev"] = prev
@@ -141,6 +144,8 @@ def build_history(revisions, eol=b"\n"):
                         data += bytes([0, 0, 0, 0, 0])
                 i = j + 1
             d = dict(extra, Type="XRef", Index=index, W=[1, 3, 1])
+            if rev.get("xref_fault"):
+                d, data = rev["xref_fault"](d, data)
             return pos, _obj_bytes(xid, Stream(d, data))
         if form == "table":
             x = len(out)
